@@ -285,8 +285,8 @@ func isASCII(s string) bool {
 
 var pfxSchemes = []string{"", "", "", "https:", "http:", "HTTPS:", "mailto:", "ftp:", "javascript:", "JavaScript:", "data:", "x-custom+a.b:", "about:", "&#104;ttps:", "java", "j", "https", "&#106;avascript:", "javascript&colon;", "java&Tab;script:", "vbscript:", ":"}
 var pfxHosts = []string{"", "", "//example.com", "//example.com:8080", "//[::1]", "//user@example.com", "//EXAMPLE.com", "//exa mple.com", "//", "//h", "///", "//h\\"}
-var pfxPaths = []string{"", "/", "/p", "/p/", "/a/b/c/", "/a/../b/", "/x/.", "/x/..", "/a/%2e", "/a/%2E%2e/", "/a%20b/", "/a b/", "/a\tb/", "/a&#9;b/", "/a&#32;b/", "/a&Tab;b", "/a&NewLine;", "/é/", "/%", "/%4", "/%zz/", "/a&amp;b/", "/a&b/", "/&", "/&#", "/&#x", "/&lt", "/&lt;", "/x&amp", "./", "../", "p/", "p", "\\p\\", "/\\", "/a\x00b/", "/a\x7fb/", "/a&#0;b/", "/a&#x7f;/"}
-var pfxQueries = []string{"", "", "?", "?q=", "?a=1&amp;b=", "?a=1&b=", "?a=1;b=", "?q=%", "?q=%2", "?q=%20", "?q=&", "?q=&#", "?q=&amp", "? q=", "?q=\n", "?q=x&amp;r="}
+var pfxPaths = []string{"", "/", "/p", "/p/", "/a/b/c/", "/a/../b/", "/x/.", "/x/..", "/a/%2e", "/a/%2E%2e/", "/a%20b/", "/a b/", "/a\tb/", "/a&#9;b/", "/a&#32;b/", "/a&Tab;b", "/a&NewLine;", "/é/", "/%", "/%4", "/%zz/", "/a&amp;b/", "/a&b/", "/&", "/&#", "/&#x", "/&lt", "/&lt;", "/x&amp", "./", "../", "p/", "p", "\\p\\", "/\\", "/a\x00b/", "/a\x7fb/", "/a&#0;b/", "/a&#x7f;/", "/&#00000000", "/&#x0000000", "/p/&#0000000000", "/static/&#00000000000"}
+var pfxQueries = []string{"", "", "?", "?q=", "?a=1&amp;b=", "?a=1&b=", "?a=1;b=", "?q=%", "?q=%2", "?q=%20", "?q=&", "?q=&#", "?q=&amp", "? q=", "?q=\n", "?q=x&amp;r=", "?x=&#00000000", "?x=&#x0000000"}
 var pfxFrags = []string{"", "", "", "#", "#f", "#a=", "#%", "#&", "#&amp;x="}
 
 func genPrefix(r *core.Rng) string {
@@ -299,7 +299,7 @@ func genPrefix(r *core.Rng) string {
 
 var data = []string{
 	"", "x", "abc", "a b", "a/b", "/", "//evil.example/", "\\", "..", ".", "../..", "%2e%2e", "%2E", ".%2e", "%2e.", "./", "/..", "?", "#", "&", "=", "a=b&c=d", "&amp;", ";", ":", "javascript:alert(1)", "://evil/", "@evil", "%", "%zz", "%4", "%41", "%00", "%0a", "%20", "%25",
-	"\"", "'", "<", ">", "`", "\"><script>", " ", "\t", "\n", "\r", "\x00", "\x7f", "é", "日本", "\xff", "\xc3", "😀", "~", "-", "_", "a.b-c_d~e", "+", "*", "!", "$", "(", ")", ",", "[", "]", "{", "}", "|", "^", "x.js", "lib/v1/x.js", "..%2f", "%2f..", "a%2Fb",
+	"\"", "'", "<", ">", "`", "\"><script>", " ", "\t", "\n", "\r", "\x00", "\x7f", "é", "日本", "\xff", "\xc3", "😀", "~", "-", "_", "a.b-c_d~e", "+", "*", "!", "$", "(", ")", ",", "[", "]", "{", "}", "|", "^", "x.js", "lib/v1/x.js", "..%2f", "%2f..", "a%2Fb", "35", "47", "0022", "26", "23;", "e", "2e",
 }
 
 // checkCond runs a template whose prefix is chosen by conditionals: either the engine rejects
